@@ -196,6 +196,34 @@ def reuse_programs(draw):
 
 
 @st.composite
+def date_reuse_programs(draw):
+    """One date condition object (`deadline = time >= T` / `time == T`) guards several blocks of several activities:
+    entered long before T, exactly at T (in a later round of that step, after the date's trigger has fired), after T."""
+    T = draw(st.sampled_from([1, 2, 2.5]))
+    cond = [draw(st.sampled_from(['time_ge', 'time_eq'])), T]
+
+    def block():
+        body = [{'op': 'sleep', 'd': draw(st.sampled_from([0.25, 0.5, 1, 2]))} for _ in range(draw(st.integers(0, 2)))]
+        if draw(st.booleans()):
+            body.append({'op': 'eternity'})
+        return {'op': 'until', 'notif': ['named', 0], 'children': [], 'body': body}
+    acts = []
+    for j in range(draw(st.integers(1, 2))):         # waiting for the date from the start
+        acts.append({'name': 'e%d' % j, 'steps': [{'op': 'sleep', 'd': draw(st.sampled_from([0, 0.25, 0.5]))}, block(),
+                                                  {'op': 'sleep', 'd': 0.25}]})
+    for j in range(draw(st.integers(1, 3))):         # arriving exactly at the date, in round 0, 1, 2 ...
+        arrive = [{'op': 'at_eq', 't': T}] if draw(st.booleans()) else [{'op': 'sleep', 'd': T}]
+        acts.append({'name': 'x%d' % j, 'steps': arrive + [{'op': 'instant'}] * draw(st.integers(0, 3)) + [block(), {'op': 'sleep', 'd': 0.5}]})
+    if draw(st.booleans()):                          # arriving later
+        acts.append({'name': 'l0', 'steps': [{'op': 'sleep', 'd': T + draw(st.sampled_from([0.25, 1]))}, block(), {'op': 'sleep', 'd': 0.25}]})
+    acts = draw(st.permutations(acts))
+    hd = {'name': 'hd', 'steps': [{'op': 'sleep', 'd': 0.3125}]}
+    return {'start': 0, 'objs': {'flags': 2, 'tracked': [0, 0], 'conds': [cond]},
+            'roots': [{'name': 'ctl', 'steps': []},
+                      {'name': 'r0', 'steps': [{'op': 'scope', 'children': [hd] + list(acts), 'body': []}]}]}
+
+
+@st.composite
 def toggle_programs(draw):
     """A connective over operands that go back and forth before the whole becomes true."""
     kind = draw(st.sampled_from(['and', 'and', 'nor', 'and3', 'or']))
@@ -391,7 +419,8 @@ class C07(Check):
     def strategy(self, tier):
         main = programs(tier, connectives=False)
         side = programs(tier, connectives=True)
-        return st.one_of(main, main, main, main, main, main, side, reuse_programs(), toggle_programs(), exit_programs())
+        return st.one_of(main, main, main, main, main, main, side, reuse_programs(), toggle_programs(), exit_programs(),
+                         date_reuse_programs())
 
     def run_case(self, prog, tier='quick'):
         out = Outcome()
